@@ -62,6 +62,21 @@ def _ops(rv):
 
 # ---------------------------------------------------------------------------
 # R-TERM
+def _yield_wrappers(prog):
+    """crate-local helpers that suspend the coroutine themselves (they call `yield_`): calling one is passing a yield"""
+    w = prog.__dict__.get('_yw_struct')
+    if w is None:
+        w = set()
+        for f, b in prog.bodies.items():
+            for bi, t in prog.calls(b):
+                n, _fn = callee_name(prog, t)
+                if n and n.endswith('::yield_'):
+                    w.add(f)
+                    break
+        prog.__dict__['_yw_struct'] = w
+    return w
+
+
 def loop_kinds(prog, func):
     """classify every natural loop of func: returns list of dict(head, kind, ok, why, span)"""
     body = prog.bodies[func]
@@ -79,7 +94,8 @@ def loop_kinds(prog, func):
                 calls.append((b, name, t))
         ht = body.blocks[head]['term']
         hname = callee_name(prog, ht)[0] if ht['k'] == 'call' else None
-        yields = [b for b, n, t in calls if n and n.endswith('::yield_')]
+        wrappers = _yield_wrappers(prog)
+        yields = [b for b, n, t in calls if n and (n.endswith('::yield_') or n in wrappers)]
         if hname and hname.endswith('::next'):
             # for-loop: exit decided by the iterator; source must not grow in the body
             recv_ty = ht['args'][0]['place']['ty'] if ht['args'] and ht['args'][0]['k'] in ('copy', 'move') else ''
